@@ -58,6 +58,8 @@ def _families(tier):
     fam += [("random", i) for i in range(60 if tier == "quick" else 3000)]
     fam += [("history", i) for i in range(150 if tier == "quick" else 12000)]
     fam += [("chr1", 0)]
+    # a graph file of more than 100 000 links whose lines are not "all S before all L" (vg-style writers)
+    fam += [("bigfile", i) for i in range(1 if tier == "quick" else 3)]
     return fam
 
 
@@ -73,7 +75,7 @@ def plan(tier):
 def required(tier):
     return ["post:biccs", "post:all_components", "post:dfs", "exhaustive_connected_graphs",
             "history_ops", "invariant_evals", "biccs_with_artic", "multigraph_cases", "query_after_query",
-            "graphs_loaded_from_file", "file_without_final_newline", "edits_without_query_between"]
+            "graphs_loaded_from_file", "file_without_final_newline", "edits_without_query_between", "big_graph_files"]
 
 
 # -- model ------------------------------------------------------------------------------------
@@ -127,13 +129,13 @@ def adj_from_real(g):
     return adj
 
 
-def build_from_file(model, rng, casedir):
+def build_from_file(model, rng, casedir, style=None):
     """The same graph read from a GFA file (the way every command builds its graph): records in any
     order, plain or gzip, LF or CRLF, empty lines, header line, last record without a terminator."""
     from gaftools.gfa import GFA
     s = [f"S\t{n}\t{seq or '*'}" for n, seq in model.nodes.items()]
     l = [f"L\t{a}\t{oa}\t{b}\t{ob}\t{ov}M" for a, oa, b, ob, ov in model.links]
-    style = rng.choice(["s_then_l", "l_then_s", "mixed"])
+    style = style or rng.choice(["s_then_l", "l_then_s", "mixed"])
     if style == "s_then_l":
         body = s + l
     elif style == "l_then_s":
@@ -293,9 +295,13 @@ def judge_graph(model, viol, situations, check_all=True, via_file=None):
         if set(ra) != artic:
             viol.append({"kind": "biccs_artic", "msg": f"biccs articulation {ra} != {artic}",
                          "witness": {"links": model.links[:40]}})
+        in_blocks = {}
+        for bi, c in enumerate(rb):
+            for x in c:
+                in_blocks.setdefault(x, set()).add(bi)
         for a, _oa, b, _ob, _ov in model.links:
             if a != b:
-                k = sum(1 for c in rb if a in c and b in c)
+                k = len(in_blocks.get(a, set()) & in_blocks.get(b, set()))
                 if k != 1:
                     viol.append({"kind": "biccs_link_cover", "msg": f"link {a}-{b} lies in {k} reported blocks"})
                     break
@@ -574,6 +580,20 @@ def run_case(ctx, rng, index, casedir):
         if len(ops) >= 3 and any(o[0] == "remove_node" for o in ops):
             sigs.append(stable_hash(ops))
         sample = {"family": "history", "ops": ops[:25]}
+    elif kind[0] == "bigfile":
+        n = rng.randint(100_200, 101_000)
+        model = Model()
+        for i in range(n):
+            model.add_node(f"b{i}", "A")
+        for i in range(n - 1):
+            model.add_link(f"b{i}", rng.choice("+-"), f"b{i + 1}", rng.choice("+-"), 0)
+            if i % 251 == 0 and i + 2 < n:
+                model.add_link(f"b{i}", "+", f"b{i + 2}", "+", 0)
+        judge_graph(model, viol, sit, check_all=False, via_file=(rng, casedir, rng.choice(["mixed", "l_then_s"])))
+        evals = 1
+        sit["big_graph_files"] += 1
+        sigs.append(f"bigfile{kind[1]}")
+        sample = {"family": "bigfile", "nodes": n, "links": len(model.links)}
     elif kind[0] == "chr1":
         from gaftools.gfa import GFA
         g = GFA(os.path.join(REPO, "tests/data/large-graph-chr1.gfa.gz"), low_memory=True)
